@@ -35,12 +35,14 @@ def meta_line(index, i):
     return ('{"index":{"_index":"%s","_id":"m%d"}}\n' % (index, i)).encode("utf-8")
 
 
-def write_file(path, fid, docs, meta, utf8, index):
+def write_file(path, fid, docs, meta, utf8, index, no_eol=False):
     with open(path, "wb") as f:
         for i in range(docs):
             if meta:
                 f.write(meta_line(index, i))
-            f.write(doc_line(fid, i, utf8))
+            line = doc_line(fid, i, utf8)
+            # (a corpus file whose last document is not terminated by a newline is still a line for every line count)
+            f.write(line[:-1] if no_eol and i == docs - 1 else line)
 
 
 class BulkHarness(Harness):
@@ -111,7 +113,7 @@ class BulkHarness(Harness):
                     meta = g.coin(0.4)
                     files.append({"large": f"L{n}{'m' if meta else ''}", "docs": n, "meta": meta})
                 else:
-                    files.append({"docs": g.pick([0, 1, 2, 3, 7, 10, 31, 64, 100, 257, 300]) if g.coin(0.5) else g.randint(0, 300 if tier == "quick" else 2500), "meta": g.coin(0.3), "utf8": g.coin(0.4)})
+                    files.append({"docs": g.pick([0, 1, 2, 3, 7, 10, 31, 64, 100, 257, 300]) if g.coin(0.5) else g.randint(0, 300 if tier == "quick" else 2500), "meta": g.coin(0.3), "utf8": g.coin(0.4), "no_eol": g.coin(0.15)})
             corpora.append({"name": f"c{ci}", "files": files})
         if not large_run and all(f["docs"] == 0 for c in corpora for f in c["files"]):
             corpora[0]["files"][0]["docs"] = 5
@@ -217,7 +219,7 @@ class BulkHarness(Harness):
                         fid = f"{corp['name']}f{fi}"
                         path = os.path.join(run_dir, fid + ".json")
                         n, meta, utf8 = f["docs"], f["meta"], f.get("utf8", False)
-                        write_file(path, fid, n, meta, utf8, target)
+                        write_file(path, fid, n, meta, utf8, target, f.get("no_eol", False))
                         io.prepare_file_offset_table(path)
                         if cfg["drop_tables"] and os.path.exists(path + ".offset"):
                             os.remove(path + ".offset")
@@ -325,8 +327,9 @@ class BulkHarness(Harness):
             all_ids = {}
             nbulks_total = 0
             for gi, group in enumerate(cfg["layout"]):
-                bodies_sent = sorted(hashlib.sha1(w.body or b"").hexdigest() for w in recv[gi])
-                bodies_handed = sorted(hashlib.sha1(p["body"]).hexdigest() for p in handed[gi])
+                # (the client library terminates a bulk body with a newline if the last line of the corpus file has none)
+                bodies_sent = sorted(hashlib.sha1((w.body or b"").rstrip(b"\n")).hexdigest() for w in recv[gi])
+                bodies_handed = sorted(hashlib.sha1(p["body"].rstrip(b"\n")).hexdigest() for p in handed[gi])
                 if bodies_sent != bodies_handed and not errors:
                     bad("wire", "params-vs-wire", f"group {group}: {len(bodies_handed)} bulks handed out by the parameter source, {len(bodies_sent)} different bodies arrived at the cluster")
                 per_file_seq = {}
